@@ -62,6 +62,8 @@ def run(index: RepoIndex, rep) -> None:
              '(C09.R5)', floor=15)
     from .c03 import copy_protocol
     copy_protocol(index, rep, 'C07.R7')
+    from .wiring import records_as_given
+    records_as_given(index, rep, 'C07.R7')
     rep.rule('C07.R1', 'frame consistency (C05.R1) for the four headings', floor=9)
     rep.rule('C07.R2', 'the visibility function receives only agent-frame arguments', floor=2)
     rep.rule('C07.R3', 'two-sided padding test on both axes (C05.R2)', floor=3)
